@@ -200,7 +200,39 @@ class Check(Property):
                         break
             if len(v) > 10:
                 break
-        return v
+        # equal quantities have equal hashes - also when one of them was hashed before the registry's state changed (default
+        # system switched, a context with a unit redefinition entered or left)
+        import pint
+        r = regs.fresh("float")
+        ctx = pint.Context("c05half")
+        ctx.redefine("pound = 0.5 * kilogram")
+        r.add_context(ctx)
+        old = [r.Quantity(1, "meter"), r.Quantity(100, "centimeter"), r.Quantity(2, "pound"), r.Quantity(1, "inch")]
+        for q in old:
+            hash(q)
+
+        def pairs_now(label):
+            for q in old:
+                twin = r.Quantity(q.magnitude, q.units)
+                try:
+                    if q == twin and hash(q) != hash(twin):
+                        v.append(f"C05 {label}: {q!r} (hashed earlier) == {twin!r} (built now) but their hashes differ")
+                except Exception as exc:  # noqa: BLE001
+                    v.append(f"C05 {label}: comparing / hashing {q!r} raised {type(exc).__name__}")
+        for system in ("cgs", "imperial", "mks"):
+            r.default_system = system
+            pairs_now(f"after default_system = {system!r}")
+        with r.context("c05half"):
+            pairs_now("inside a context that redefines pound")
+            inside = r.Quantity(2, "pound")
+            hash(inside)
+            if inside == r.Quantity(1, "kilogram") and hash(inside) != hash(r.Quantity(1, "kilogram")):
+                v.append("C05 inside the context (pound = 0.5 kg): 2 pound == 1 kilogram but the hashes differ")
+        pairs_now("after leaving the context")
+        twin = r.Quantity(2, "pound")
+        if inside == twin and hash(inside) != hash(twin):
+            v.append("C05 after leaving the context: 2 pound hashed inside the context == 2 pound built now but the hashes differ")
+        return v[:12]
 
     def oracle(self, c):
         import operator
